@@ -6,6 +6,7 @@ from nvlib.check import Prop
 from props import c06_extract as T
 
 NSLOT, NOBJ, NVAR, NCALL, NSENT = 10, 4, 4, 4, 4
+LAYOUTS = [(1, 1), (1, 2), (2, 1), (3, 1)]      # replace_program() family: variables of the first / second inherit
 NEFUN = 72
 # groups that build a cycle while they run (an error injected in the middle legitimately leaves cyclic garbage) or
 # keep a call_out handle in a local (71: the injected error would leave the call_out pending)
@@ -92,6 +93,7 @@ class Gen:
         self.inp = False
         self.unl = [False, False]
         self.seq = 0
+        self.lay = [None] * NOBJ        # layout of an rc object that has not replaced its program yet
         self.late = False       # second half of the history: the blueprints may be unloaded
 
     def new(self, kind, size=0):
@@ -119,7 +121,8 @@ class Gen:
         choices = [("newarr", 8), ("newmap", 5), ("newcls", 3), ("newbuf", 2), ("assign", 10), ("free", 6),
                    ("aset", 10), ("aget", 6), ("mset", 8), ("mdel", 4), ("newobj", 4), ("setvar", 6), ("getvar", 4),
                    ("dest", 2), ("cleanup", 2), ("drop", 1), ("call", 5), ("rmcall", 2), ("sweep", 3), ("sent", 4),
-                   ("rmsent", 2), ("rmcalln", 1), ("rmall", 1), ("newfun", 4), ("fill", 3), ("inp", 4), ("input", 3), ("deadcall", 3)]
+                   ("rmsent", 2), ("rmcalln", 1), ("rmall", 1), ("newfun", 4), ("fill", 3), ("inp", 4), ("input", 3), ("deadcall", 3),
+                   ("newobjr", 3), ("replace", 3)]
         choices += [("newmstr", 4), ("sappend", 4), ("sjoin", 3), ("sadd", 3), ("schar", 4)]
         if m == "unit":
             choices += [("newstr", 6), ("push", 6), ("pushr", 3), ("pop", 6), ("popto", 3), ("oref", 3),
@@ -209,7 +212,26 @@ class Gen:
             if not self.handle[o] and (self.obj[o] is None or self.obj[o].size == 2) and not self.unl[0]:
                 self.obj[o] = self.new("obj")
                 self.handle[o] = True
+                self.lay[o] = None
             self.emit("newobj %d" % o)
+        elif k == "newobjr":
+            o, L = r.below(NOBJ), r.below(len(LAYOUTS))
+            if not self.handle[o] and (self.obj[o] is None or self.obj[o].size == 2):
+                self.obj[o] = self.new("obj")
+                self.handle[o] = True
+                self.lay[o] = L
+            self.emit("newobjr %d %d" % (o, L))
+        elif k == "replace":
+            ro = [o for o in self.alive_objs() if self.lay[o] is not None]
+            o = r.choice(ro) if ro and r.chance(9, 10) else r.below(NOBJ)
+            w = r.below(2)
+            if o in ro:
+                na, nb = LAYOUTS[self.lay[o]]
+                it = self.obj[o].items
+                self.obj[o].items = {i: it.get(i + na) for i in range(nb)} if w else {i: it.get(i) for i in range(na)}
+                self.obj[o].items = {i: v for i, v in self.obj[o].items.items() if v is not None}
+                self.lay[o] = None
+            self.emit("replace %d %d" % (o, w))
         elif k == "setvar":
             ao = self.alive_objs()
             o = r.choice(ao) if ao and r.chance(9, 10) else r.below(NOBJ)
@@ -704,6 +726,17 @@ class C06(Prop):
         mk("program-unload-no-clones", "unit", ["unload 0", "newarr 0 1", "unload 1", "free 0"])
         mk("program-unload-pending", "unit", ["newobj 0", "newobj 1", "newarr 0 2", "call 0 0 1 0 0", "sent 0 1 0 0", "dest 0", "unload 0",
                                               "cleanup", "unload 0", "sweep", "dest 1", "cleanup", "drop 0", "drop 1", "free 0"])
+        # replace_program(): every layout (offset of the kept variables below / at / above their number), both inherited
+        # programs, every variable holding a counted value; counters after the deferred replace_programs() and after destruct
+        for mode in ("unit", "lpc"):
+            for L, (na, nb) in enumerate(LAYOUTS):
+                for w in (0, 1):
+                    mk("replace-program-%d%d-%s-%s" % (na, nb, "ab"[w], mode), mode,
+                       ["newobjr 0 %d" % L, "newobjr 1 %d" % L, "newarr 0 2", "newmap 1", "newcls 2", "newmstr 3 rp", "mset 1 0 2",
+                        "setvar 0 0 0", "setvar 0 1 1", "setvar 0 2 2", "setvar 0 3 3", "setvar 1 3 0", "free 0", "free 1", "free 2", "free 3",
+                        "replace 0 %d" % w, "getvar 4 0 0", "getvar 5 0 1", "getvar 6 0 2", "setvar 0 0 5", "replace 0 %d" % w, "replace 1 %d" % (1 - w),
+                        "free 4", "free 5", "free 6", "dest 0", "cleanup", "drop 0", "newobjr 2 %d" % L, "replace 2 %d" % w, "dest 2", "dest 1",
+                        "cleanup", "drop 1", "drop 2"])
         for mode in ("unit", "lpc"):
             # a call_out callback that raises an error: its arguments are popped by the error recovery of call_out()
             mk("callout-callback-raises-" + mode, mode,
